@@ -7,6 +7,7 @@ import Kvass.Driver.Disc
 import Kvass.Driver.Explore
 import Kvass.Driver.Hash
 import Kvass.Driver.CfgHash
+import Kvass.Driver.Inject
 
 open Kvass.Driver
 
@@ -30,4 +31,5 @@ def main (args : List String) : IO UInt32 := do
   | ["explore"] => loop stdin Explore.handle; return 0
   | ["hash"] => loop stdin Hash.handle; return 0
   | ["cfghash"] => loop stdin CfgHash.handle; return 0
+  | ["inject"] => loop stdin Inject.handle; return 0
   | _ => IO.eprintln "usage: driver <engine>"; return 2
